@@ -1,5 +1,6 @@
 import DmrVerif.Driver.Loop
+import DmrVerif.Driver.Tms
 
-/-! model driver for property C16 (stub: no operations registered yet) -/
+/-! model driver for property C16 (Motorola TMS / ARS) -/
 
-def main : IO Unit := Dmr.Driver.runMain []
+def main : IO Unit := Dmr.Driver.runMain [Dmr.Driver.tmsOp, Dmr.Driver.arsOp]
